@@ -57,7 +57,7 @@ def run_chain_loop(ctx, pfx, A, ev, chain0, nc, nd, sp, inlined_chain=None, out_
     lh = ls.lh[ok_]
     row = T.app('row_mut', T.sub(it, nd))
     vals = [T.app('from_shape', T.app('len', stepres), stepres), stepres]
-    exps = [T.ite(T.cmp('ge', it, nd), T.app('upd', lh, row, v), lh) for v in vals]
+    exps = [T.ite(T.icmp('ge', it, nd), T.app('upd', lh, row, v), lh) for v in vals]
     ctx.eq(pfx + '.guard_row_value', A, 'store', ls.next[ok_], exps[0], alts=exps[1:], sp=ls.sp,
            why='store iff k >= n_discard, at row k - n_discard, the state returned by this iteration\'s step => row r holds the state after n_discard + r + 1 transitions')
     dimt = dim_terms or [T.app('len', T.app('core::MarkovChain::current_state', chain0))]
@@ -308,7 +308,7 @@ def nuts_chain_run(ctx, nc, nd):
     dim = index_term(T.app('dims', pos0), N(0))
     post = T.app('post0', T.app('nuts::NUTSChain::step', ls.lh[sk[0]]))
     r = T.sub(m, nd)
-    exp = T.ite(T.cmp('ge', m, nd), T.app('slice_assign', ls.lh[o], T.app('array', T.app('range', r, T.add(r, T.ONE)), T.app('range', N(0), dim)), T.app('unsqueeze', fld(post, 'position'))), ls.lh[o])
+    exp = T.ite(T.icmp('ge', m, nd), T.app('slice_assign', ls.lh[o], T.app('array', T.app('range', r, T.add(r, T.ONE)), T.app('range', N(0), dim)), T.app('unsqueeze', fld(post, 'position'))), ls.lh[o])
     ctx.eq('C09.nuts_run.guard_row_value', A, 'store', ls.next[o], exp, sp=ls.sp, why='store iff m >= n_discard at row m - n_discard, the position after this iteration\'s step')
     row0 = T.app('slice_assign', T.app('empty_t', T.app('array', nc, dim), S('default:<B as burn::prelude::Backend>::Device')),
                  T.app('array', T.app('range', N(0), N(1)), T.app('range', N(0), dim)), T.app('unsqueeze', pos0))
